@@ -12,6 +12,7 @@ from stone.backends.python_helpers import (
     fmt_var,
     generate_imports_for_referenced_namespaces,
     generate_module_header,
+    TYPE_IGNORE_COMMENT,
     validators_import_with_type_ignore,
 )
 from stone.backends.python_type_mapping import (
@@ -24,6 +25,9 @@ from stone.ir import (
     Api,
     ApiNamespace,
     DataType,
+    is_alias,
+    is_list_type,
+    is_map_type,
     is_nullable_type,
     is_struct_type,
     is_union_type,
@@ -444,8 +448,39 @@ class PythonTypeStubsBackend(CodeBackend):
     def map_stone_type_to_pep484_type(self, ns, data_type):
         # type: (ApiNamespace, DataType) -> typing.Text
         assert self._pep_484_type_mapping_callbacks
+        self._import_namespaces_behind_foreign_aliases(ns, data_type)
         return map_stone_type_to_python_type(ns, data_type,
                                              override_dict=self._pep_484_type_mapping_callbacks)
+
+    def _import_namespaces_behind_foreign_aliases(self, ns, data_type, behind=False):
+        # type: (ApiNamespace, DataType, bool) -> None
+        """
+        An alias of another namespace that stands for a list, map or nullable
+        type is written out in annotations. The types inside it may belong to
+        namespaces that the spec of ns does not import itself.
+        """
+        if is_alias(data_type):
+            if is_user_defined_type(unwrap_aliases(data_type)[0]):
+                return  # Named through the alias or the class's own namespace.
+            self._import_namespaces_behind_foreign_aliases(
+                ns, data_type.data_type,
+                behind or data_type.namespace.name != ns.name)
+        elif is_nullable_type(data_type) or is_list_type(data_type):
+            self._import_namespaces_behind_foreign_aliases(
+                ns, data_type.data_type, behind)
+        elif is_map_type(data_type):
+            self._import_namespaces_behind_foreign_aliases(
+                ns, data_type.value_data_type, behind)
+        elif (behind and is_user_defined_type(data_type) and
+                data_type.namespace.name != ns.name and
+                data_type.namespace not in ns.get_imported_namespaces(
+                    consider_annotation_types=True)):
+            assert self.args is not None
+            self.import_tracker._register_adhoc_import(
+                'from {} import {}{}'.format(
+                    self.args.package,
+                    fmt_namespace(data_type.namespace.name),
+                    TYPE_IGNORE_COMMENT))
 
     def _generate_routes(
             self,
@@ -477,7 +512,7 @@ class PythonTypeStubsBackend(CodeBackend):
 
             if self.import_tracker.cur_namespace_adhoc_imports:
                 self.emit("")
-                for to_import in self.import_tracker.cur_namespace_adhoc_imports:
+                for to_import in sorted(self.import_tracker.cur_namespace_adhoc_imports):
                     self.emit(to_import)
 
         self.add_named_placeholder('imports_needed_for_typing', output_buffer.getvalue())
